@@ -1215,13 +1215,22 @@ def residual_cases(b, base, sink):
     (2) an import inside the body of a generic function (+ control without the import).  Returns a stats dict."""
     d = os.path.join(base, "residual")
     os.makedirs(d, exist_ok=True)
+    gen_decl = ('Die öffentliche generische Funktion zeige mit dem Parameter x vom Typ T, gibt nichts zurück, macht:\n'
+                '\tBinde wa aus "a" ein.\n\tSchreibe wa auf eine Zeile.\nUnd kann so benutzt werden:\n\t"zeige <x>"\n')
+    aus = 'Binde "Duden/Ausgabe" ein.\n'
     progs = {
         "fwd_call_before_def": RES_FWD_HEAD + "zeige.\n" + RES_FWD_DEF,
         "fwd_call_after_def": RES_FWD_HEAD + RES_FWD_DEF,
         "gen_import": RES_GEN % '\tBinde wa aus "a" ein.\n\tSchreibe wa auf eine Zeile.\n',
         "gen_control": RES_GEN % "",
+        # called in a loop; declared in another module; called inside a function of the declaring (imported) module
+        "gen_import_loop": aus + gen_decl + 'Schreibe "R0" auf eine Zeile.\nWiederhole:\n\tzeige 1.\n3 Mal.\n',
+        "gen_import_other_module": aus + 'Schreibe "R0" auf eine Zeile.\nBinde "resg" ein.\nSchreibe "R1" auf eine Zeile.\nzeige 1.\nzeige "t".\n',
+        "gen_import_called_in_module": aus + 'Schreibe "R0" auf eine Zeile.\nBinde h aus "resg2" ein.\nSchreibe "R1" auf eine Zeile.\nh.\nh.\n',
     }
     open(os.path.join(d, "a.ddp"), "w").write(RES_A)
+    open(os.path.join(d, "resg.ddp"), "w").write(aus + gen_decl)
+    open(os.path.join(d, "resg2.ddp"), "w").write(aus + gen_decl + 'Die öffentliche Funktion h gibt nichts zurück, macht:\n\tzeige 1.\nUnd kann so benutzt werden:\n\t"h"\n')
     for n, t in progs.items():
         open(os.path.join(d, n + ".ddp"), "w").write(t)
 
@@ -1246,6 +1255,8 @@ def residual_cases(b, base, sink):
         ninit = lines.count("init a")
         if uses_a and ninit != 1:
             sink.violation("residual %s%s init-count=%d" % (kind, ctl, ninit), "%s: the initialiser of a ran %d times: %s" % (n, ninit, lines), rep)
+        if uses_a and ("7" not in lines or ("R1" in lines and lines.index("init a") > lines.index("R1"))):
+            sink.violation("residual %s%s wrong-output" % (kind, ctl), "%s: %s" % (n, lines), rep)
         if "0" in lines:
             sink.violation("residual %s%s uninitialised-global-read" % (kind, ctl), "%s: the global of a is read before its initialiser ran: %s" % (n, lines), rep)
     return out
@@ -1393,7 +1404,7 @@ def main():
     b = Build()
     ck.cov["trusted_base"] = vlib.TRUSTED_COMMON + [
         "module summaries: a module is abstracted to its imports, declarations (kind, name, visibility), uses, marker statements, Wiederhole/Wenn blocks and function bodies; paths are numbers; the directory walk order of filepath.WalkDir is re-implemented in the check (lexical order) and given to the model as data",
-        "outside the model's statement language and judged by the oracle only (leg 'residual'): an import statement inside a generic function body and inside the definition (FuncDef) of a forward-declared function",
+        "outside the model's statement language, run on every pass and judged strictly by the oracle (leg 'residual', seven programs): an import statement inside a generic function body and inside the definition (FuncDef) of a forward-declared function",
         "the model computes a module's public interface from its own declarations only (cases where a non-root module declares a name it also imports are judged against the property but not compared with the model); calls out of function bodies are not expanded by the model (the generator never nests calls); imports of Duden modules are outside the model",
         "numeric diagnostic codes are re-read from src/ddperror/codes.go on every run; only the class (include / undefined / already defined / alias / other, 'refused' for a use) per statement is compared, never the wording",
         "sha256 (module hash in mangled names) is a section variable of Mod/Mangle.v, assumed injective on the module names of one compilation",
